@@ -33,6 +33,18 @@ def strategy(draw):
     if plain:
         spec['opts'] = {'perm': None, 'extra': []}
         spec['plain'] = True
+        ops = spec['lfs'][0]['ops']
+        chans = [j for j, op in enumerate(ops) if op['t'] == 'channel']
+        if len(chans) >= 2 and draw(st.booleans()):
+            # two channels whose dataset names are each other's channel names; the structured array lists its fields in
+            # the order of the frame's channel names, so its dtype still coincides with the frame's
+            a, b = chans[0], chans[1]
+            ops[b]['data'] = dict(ops[a]['data'], pat=[draw(st.integers(0, 60)) * 2 + 1, draw(st.integers(0, 255))])
+            ops[b]['data'].pop('hex', None)
+            ops[b]['data'].pop('special', None)
+            ops[a]['dsname'], ops[b]['dsname'] = ops[b]['name'], ops[a]['name']
+            spec['opts']['field_order'] = [ops[j]['name'] for j in chans]
+            spec['crossed'] = True
         return spec
     k = 0
     for op in spec['lfs'][0]['ops']:
@@ -83,11 +95,14 @@ class C11(Property):
         spec = copy.deepcopy(spec)
         opts = spec.pop('opts', {})
         plain = spec.pop('plain', False)
+        crossed = spec.pop('crossed', False)
         w = spec['write']
         window = bool(w.get('from')) or w.get('to') is not None
         labels = ['window' if window else 'no-window']
         if plain:
             labels.append('struct-dtype-coincides')
+        if crossed:
+            labels.append('crossed-dataset-names')
         if w.get('from'):
             labels.append('from>0')
         if opts.get('perm'):
